@@ -367,7 +367,7 @@ impl L2Table {
     /// only returns `Some(_)` if some cluster is indeed leaked.
     #[must_use]
     pub fn map_cluster(&mut self, index: usize, host_cluster: u64) -> Option<(u64, usize)> {
-        let allocation = self.data[index].allocation(self.cluster_bits);
+        let allocation = self.get(index).allocation(self.cluster_bits);
 
         self.set(
             index,
